@@ -362,6 +362,7 @@ def userOnly : Op → Prop
   | .send l a _ _ => userAddr a ∧ l < 1000
   | .csend l a _ _ => userAddr a ∧ l < 1000
   | .settle l _ _ => l < 1000
+  | .ackw l _ _ => l < 1000
   | _ => True
 
 /-- commitments carry user senders -/
@@ -389,6 +390,7 @@ theorem backed_step (cfg : Cfg) (s : State) (op : Op) (hu : userOnly op) (h : Ba
     · exact ⟨h, hc⟩
     · exact ⟨h, hc⟩
   | bad => exact ⟨h, hc⟩
+  | nop => exact ⟨h, hc⟩
   | fund a t l amt =>
     simp only [stepWith]
     split
@@ -453,6 +455,77 @@ theorem backed_step (cfg : Cfg) (s : State) (op : Op) (hu : userOnly op) (h : Ba
         | ackOk => simp only [settleState, Option.some.injEq] at hst; subst hst; exact h
         | ackErr => exact hrefund _ hst
         | timeout => exact hrefund _ hst
+  | ackw l seq w =>
+    -- every combination of the two decisions, agreeing or not
+    simp only [stepWith, settleW]
+    cases hl : lookup (l, seq) s.ctl.commits with
+    | none => exact ⟨h, hc⟩
+    | some p =>
+      have hp : userAddr p.sender := hc _ (lookup_mem hl)
+      simp only
+      cases hst : settleAckState cfg s l seq p w with
+      | none => exact ⟨h, hc⟩
+      | some s' =>
+        simp only
+        unfold settleAckState at hst
+        cases ha : cfg.appRefunds w with
+        | none => rw [ha] at hst; cases hst
+        | some ar =>
+          rw [ha] at hst
+          simp only at hst
+          have hrefund : ∀ b, refundState cfg s l seq p b = some s' →
+              Backed s'.bal ∧ s'.ctl.commits = dropCommit s.ctl.commits (l, seq) := by
+            intro b hr
+            refine ⟨?_, refundState_commits cfg s s' l seq p b hr⟩
+            cases b with
+            | true =>
+              obtain ⟨b1, hap, hh | hh⟩ := refundState_cases cfg s s' l seq p hr
+              · obtain ⟨b2, hh2, hs'⟩ := hh
+                subst hs'
+                exact backed_refundHook cfg _ b1 b2 l p _ (backed_refundApp s.bal b1 l p h hp hu hap) hp hh2
+              · obtain ⟨_, _, hs'⟩ := hh
+                subst hs'
+                exact backed_refundApp s.bal b1 l p h hp hu hap
+            | false =>
+              obtain ⟨b1, hap, hs'⟩ := refundState_false cfg s s' l seq p hr
+              subst hs'
+              exact backed_refundApp s.bal b1 l p h hp hu hap
+          have key : Backed s'.bal ∧ s'.ctl.commits = dropCommit s.ctl.commits (l, seq) := by
+            cases ar with
+            | true =>
+              cases hact : cfg.ackAct w with
+              | refund => rw [hact] at hst; exact hrefund _ hst
+              | nothing => rw [hact] at hst; exact hrefund _ hst
+              | after =>
+                rw [hact] at hst
+                simp only [settleBy] at hst
+                cases hap : refundApp s.bal l p with
+                | none => rw [hap] at hst; cases hst
+                | some b1 =>
+                  rw [hap] at hst
+                  simp only [Option.some.injEq] at hst
+                  subst hst
+                  exact ⟨backed_refundApp s.bal b1 l p h hp hu hap, rfl⟩
+            | false =>
+              cases hact : cfg.ackAct w with
+              | after => rw [hact] at hst; simp only [settleBy, Option.some.injEq] at hst; subst hst; exact ⟨h, rfl⟩
+              | nothing => rw [hact] at hst; simp only [settleBy, Option.some.injEq] at hst; subst hst; exact ⟨h, rfl⟩
+              | refund =>
+                rw [hact] at hst
+                simp only [settleBy] at hst
+                cases hh : refundHook cfg s.ctl.vmeta s.bal l p (refundForm cfg s.ctl (l, seq) p) with
+                | none =>
+                  rw [hh] at hst
+                  simp only at hst
+                  split at hst
+                  · cases hst
+                  · simp only [Option.some.injEq] at hst; subst hst; exact ⟨h, rfl⟩
+                | some b2 =>
+                  rw [hh] at hst
+                  simp only [Option.some.injEq] at hst
+                  subst hst
+                  exact ⟨backed_refundHook cfg _ s.bal b2 l p _ h hp hh, rfl⟩
+          exact ⟨key.1, by intro x hx; rw [key.2] at hx; exact hc x (mem_dropCommit.1 hx).1⟩
 
 theorem backed_run (cfg : Cfg) (ops : List Op) (s : State) (hu : ∀ op ∈ ops, userOnly op) (h : Backed s.bal)
     (hc : SendersOk s.ctl) : Backed (runWith cfg s ops).bal := by
